@@ -140,6 +140,14 @@ func (w *World) buildOutputs(specs []OutSpec) (cashu.BlindedMessages, []any, boo
 					filler = strings.Repeat("\u00e9", (sp.SecLen-16)/2)
 				}
 				si := w.Reg.InternSecret(filler+hex.EncodeToString(w.rng.bytes(8)), "none")
+				if sp.Lock != "" && sp.Lock != "none" {
+					// a well-formed P2PK secret of exactly SecLen bytes (the nonce is padded)
+					pk := w.Reg.LockKey(sp.Lock).PubKey()
+					frame := fmt.Sprintf(`["P2PK",{"nonce":"","data":"%s","tags":[]}]`, hex.EncodeToString(pk.SerializeCompressed()))
+					nonce := hex.EncodeToString(w.rng.bytes(8)) + strings.Repeat("0", sp.SecLen-len(frame)-16)
+					si = w.Reg.InternSecret(fmt.Sprintf(`["P2PK",{"nonce":"%s","data":"%s","tags":[]}]`, nonce,
+						hex.EncodeToString(pk.SerializeCompressed())), sp.Lock)
+				}
 				secID = si.ID
 			}
 			oi = w.NewOutput(secID, sp.Lock, ksReal, amt)
